@@ -1,6 +1,7 @@
 package rules
 
 import (
+	"unicode/utf8"
 	"go/types"
 	"sort"
 	"strings"
@@ -383,6 +384,10 @@ func checkC16(c *Ctx) {
 
 func short(s string, n int) string {
 	if len(s) > n {
+		// never cut inside a multi-byte character (the forms use ⟨ ⟩ … and the reports must stay valid UTF-8)
+		for n > 0 && !utf8.RuneStart(s[n]) {
+			n--
+		}
 		return s[:n] + "…"
 	}
 	return s
